@@ -142,6 +142,10 @@ impl Request {
         if !self.is_request_uri_path_or_query_or_fragment() {
             return Err(Request::_ERROR_REQUEST_URI_IS_NOT_IN_ORIGIN_FORM.to_string())
         }
+        if !self.request_uri.starts_with(SYMBOL.slash) {
+            // request uri starts with a query or fragment, there is no path
+            return Ok(SYMBOL.empty_string.to_string())
+        }
         // scheme and host required for the parse_url function
         let url_array = ["http://", "localhost", &self.request_uri];
         let url = url_array.join(SYMBOL.empty_string);
